@@ -541,7 +541,7 @@ func (te *tableEngine) PlayerBet(playerID string, chips int64) error {
 
 		playerState := te.table.State.PlayerStates[playerIdx]
 		playerState.GameStatistics.ActionTimes++
-		if te.game.GetGameState().Status.CurrentRaiser == gamePlayerIdx {
+		if gs.Status.CurrentRaiser == gamePlayerIdx {
 			playerState.GameStatistics.RaiseTimes++
 		}
 
@@ -668,7 +668,7 @@ func (te *tableEngine) PlayerAllin(playerID string) error {
 
 		playerState := te.table.State.PlayerStates[playerIdx]
 		playerState.GameStatistics.ActionTimes++
-		if te.game.GetGameState().Status.CurrentRaiser == gamePlayerIdx {
+		if gs.Status.CurrentRaiser == gamePlayerIdx {
 			playerState.GameStatistics.RaiseTimes++
 			if playerState.GameStatistics.IsPFRChance {
 				playerState.GameStatistics.IsPFR = true
